@@ -412,7 +412,7 @@ func runC08(c *Ctx) {
 		"Teardown": "pkg/state.WithTeardownOwner", "Destroy": "pkg/state.WithDestroyOwner",
 	}
 	allowedLeaf := func(d string) bool {
-		return d == "*param#0.owner" || d == `const:""` || Glob("**call:"+pkgOwned+".ToDeleteOptions(*).Owner", d) || Glob("*var:opOpt.Owner", d) || Glob("**.Owner", d) && strings.Contains(d, "ToDeleteOptions")
+		return d == "*param#0.owner" || d == `const:""` || Glob("**call:"+pkgOwned+".ToDeleteOptions(*).Owner", d) || Glob("*var:"+pkgOwned+".DeleteOptions.Owner", d) || Glob("**.Owner", d) && strings.Contains(d, "ToDeleteOptions")
 	}
 
 	for _, name := range []string{"Create", "Destroy", "ModifyWithResult", "Teardown", "Update"} {
